@@ -118,7 +118,7 @@ fn one_target<T: Elem>(ctx: &mut Ctx, t: Target<T>) {
     let bounds: Vec<T> = vals::boundaries::<T>(false);
     let all = target_lengths(&t);
     let mut rng = ctx.rng.split();
-    let lens: Vec<usize> = if tier == Tier::Thorough || all.len() <= 40 {
+    let lens: Vec<usize> = if tier == Tier::Thorough || all.len() <= 400 {
         all
     } else {
         // quick: every third length of the smart subset (phase chosen by the job seed) + the ends
@@ -134,7 +134,7 @@ fn one_target<T: Elem>(ctx: &mut Ctx, t: Target<T>) {
     let small = !T::FLOAT && t.r.op == crate::elem::Op::Cosine;
     let pack = pack_len(&t);
     let mut run = Run::new(ctx, t, pack.max(128));
-    let reps = tier.pick(2, 5);
+    let reps = tier.pick(2, 40);
     for &len in &lens {
         if run.ctx.out_of_time() {
             break;
@@ -151,7 +151,8 @@ fn one_target<T: Elem>(ctx: &mut Ctx, t: Target<T>) {
             let a: Vec<T> = (0..len).map(|_| gen(&mut rng, false)).collect();
             let b: Vec<T> = if kind_uses_b(t.r.kind()) { (0..len).map(|_| gen(&mut rng, true)).collect() } else { Vec::new() };
             let v = gen(&mut rng, true);
-            let c: VecCall<T> = t.call().with_data(v, a, b);
+            let mut c: VecCall<T> = t.call().with_data(v, a, b);
+            c.weight = 3;
             run.tally.note_len(len);
             let ar = &mut run.ar;
             run.ctx.run_case(&c, len > 0, &mut |c| check(c, ar));
